@@ -54,11 +54,14 @@ def inner_texts(rng, tier):
            # characters that mean something between tokens, inside string literals and quoted names
            "select replace(tags, ';', ',') as tags from files.posts where sep = ';'", "select 'a;b', 'a;  b', ';;', 'x; y' from t",
            "select '(', ')', '((', 'a)b' from t where c = '--x' and d = '/* y */'", 'select ";", "a,b", `c;d`, `e(f` from t',
-           "select split(x, ';'), ',' from t where y in (';', ',', '.')", "select '@v', '@@sv', '`q`', '\"' from t"]
+           "select split(x, ';'), ',' from t where y in (';', ',', '.')", "select '@v', '@@sv', '`q`', '\"' from t",
+           # every spelling of a name: bare, back-quoted plain word, back-quoted reserved word, back-quoted with blanks / dots
+           "select `order`, `from`, price from orders where `group` = 1", "select `a`.`b`, `c` as `d` from `t` as `u`",
+           "select `x`, x, `X y`, `p.q` from db.`tbl` where `select` > 0 order by `limit`"]
     base = [s for s in harvest()[D] if '(' not in s or s.count('(') == s.count(')')]
     rng.shuffle(base)
     out += [s for s in base[: (60 if tier == 'quick' else 400)] if s.lower().lstrip().startswith('select')]
-    frags = ["'a'", "''", "'it''s'", "'\\''", '"q"', '@v', '@@s', '`x y`', '1.0', '42', 'a.b', '(1)', '( )', '-- c\n', '/* m\n */',
+    frags = ["'a'", "''", "'it''s'", "'\\''", '"q"', '@v', '@@s', '`x y`', '`x`', '`order`', '`from`', '`A1`', '`_u`.`v`', '1.0', '42', 'a.b', '(1)', '( )', '-- c\n', '/* m\n */',
              ' ', '  ', '\n', '\n  ', ',', '=', 'select', 'from', 't', 'where', 'x', '*', '+',
              "'p\nq'||r", "'p\nq',s", '"m\nn"=k', "'a\n\nb'||c and d", '/* x\n y */z',
              "';'", "'a;b'", "'; '", "';;'", "'('", "')'", "'--'", "'/*'", "','", '";"', '`a;b`', "'a ;  b'"]
